@@ -1,5 +1,6 @@
 """C16: the limits pkg/appdef's builder enforces on a definition (preconditions of Add... calls that the
 VSQL parser does not check itself)."""
+import re
 
 
 def collect(h):
@@ -19,6 +20,19 @@ def collect(h):
     if m is None:
         raise h.Missing("pkg/appdef: cannot locate MaxIdentLen")
     items.append(("appdef_max_ident_len", "N", str(h.go_int(m.group(1))), rel))
+    # does buildAppDefs turn a panic of the definition builder into an error? (repair of C16-F1)
+    rel = "pkg/parser/impl.go"
+    body = h.func_body(rel, r"^func buildAppDefs\(", "buildAppDefs")
+    h.find(rel, r"ctx\.build\(\)", "buildAppDefs -> ctx.build()")
+    items.append(("parser_recovers_builder_panics", "bool", "true" if re.search(r"defer\s+func\(\)\s*\{\s*if\s+\w+\s*:=\s*recover\(\)", body) else "false", rel + " buildAppDefs"))
+    # are the rules of one `... ON TABLE` statement written in operation order, or in Go map order? (repair of C16-F2)
+    rel = "pkg/parser/impl_build.go"
+    body = h.func_body(rel, r"^func applyGrantOrRevokeRule\(", "applyGrantOrRevokeRule")
+    by_map = bool(re.search(r"for\s+op\s*,\s*columns\s*:=\s*range\s+g\.opColumns", body))
+    ordered = bool(re.search(r"slices\.Sort\(\w+\)", body)) and not by_map
+    if by_map == ordered:
+        raise h.Missing(f"{rel}: cannot decide the order of the per-operation rules in applyGrantOrRevokeRule")
+    items.append(("parser_grant_rules_sorted", "bool", "true" if ordered else "false", rel + " applyGrantOrRevokeRule"))
     # the parser's identifier rule: a letter followed by at most 254 word characters
     rel = "pkg/parser/const.go"
     h.find(rel, r'identifierRegexp\s*=\s*`\(\[a-zA-Z\]\\w\{0,254\}\)\|\("\[a-zA-Z\]\\w\{0,254\}"\)`', "identifierRegexp")
